@@ -64,6 +64,15 @@ def cases(rng, tier, X):
         out.append(('u%d_merged' % k, head + body))
         out.append(('u%d_solo0' % k, head + solo(0)))
         out.append(('u%d_solo1' % k, head + solo(1)))
+    # a host with many interfaces (VLAN sub-interfaces, container veths): every one of 9 / 17 / 20 contexts alone and all interleaved
+    for k in range(3 if tier == 'quick' else 60):
+        nif = [9, 17, 20][k % 3]
+        u = F.universal(rng, nif=nif, with_glob_changes=False)
+        head = [o for o in u if o.startswith(('iface', 'glob'))]
+        body = [o for o in u if o.startswith(('rx ', 'set '))]
+        out.append(('many%d_merged' % k, head + body))
+        for i in range(nif):
+            out.append(('many%d_solo%d' % (k, i), head + [o for o in body if o.split()[1] == str(i)]))
     # resource cross-talk: interface 0 holds close to the cap of unreported observations while interface 1 records and reports its own
     for k in range(2 if tier == 'quick' else 40):
         head = [F.iface_line(0, mac=F.OWN, mtu=1500), F.iface_line(1, mac=F.OWN2, mtu=1500), F.glob_line()]
@@ -108,7 +117,9 @@ def extra_predicate(cases, impl):
     for cid, ops in cases:
         if cid.endswith('_merged'):
             base = cid[:-7]
-            for i in (0, 1):
+            i = -1
+            while ('%s_solo%d' % (base, i + 1)) in impl:
+                i += 1
                 a = per_iface(impl.get(cid, []), i)
                 b = per_iface(impl.get('%s_solo%d' % (base, i), []), i)
                 if a != b:
